@@ -187,6 +187,24 @@ func checkC15(c *Ctx, r *Result, tier string) {
 	}
 	r.Floor("R15c", total, 40)
 
+	// R15g: the wait predicate of a suspended thread (interrogationState.running) is written only
+	// while the debugger lock is held (in any mode; commands hold it shared together with the
+	// condition's lock, the thread itself holds it exclusively when it publishes "suspended"). A
+	// write made after the lock was released can overwrite a continue command that arrived in
+	// between — the thread then waits for a command that was already given.
+	if f := c.Field("interpreter", "interrogationState", "running"); f != nil {
+		nRun := g.check(r, "R15g", GuardSpec{Field: f, FieldName: "interrogationState.running", Lock: "interpreter.ecalDebugger.lock", WritesOnly: true, AnyModeOK: true},
+			ifuncs, func(fn *ssa.Function) string {
+				if strings.HasPrefix(fn.Name(), "newInterrogationState") {
+					return "constructor: the state is not shared yet"
+				}
+				return ""
+			})
+		r.Floor("R15g", nRun, 4)
+	} else {
+		r.Undecide("R15g: interrogationState.running not found")
+	}
+
 	// ---- R15e ---------------------------------------------------------------------------------
 	c15BreakOnError(c, r, dbgIface)
 	c15StopAll(c, r, dbgIface)
